@@ -29,6 +29,8 @@ type PropConfig struct {
 	QuickSkip func(name string) bool
 	Redirect  map[string]string // real function (ssa name) -> harness function modelling it
 	TimeoutMs int
+	Solver    string // primary back end ("" = z3 4.8.12)
+	StrBytes  int    // >0: strings are bounded bit-vectors of this many bytes (0: SMT-LIB strings)
 }
 
 type HarnessResult struct {
@@ -45,6 +47,7 @@ type HarnessResult struct {
 	Stubs        []string
 	States       int
 	Inconclusive []string
+	BoundHits    map[string]int
 }
 
 type Failure struct {
@@ -124,6 +127,10 @@ func runHarness(l *Loaded, pc *PropConfig, fn *ssa.Function, solver *Solver, tie
 	}()
 	for _, st := range ex.finished {
 		status := st.status
+		if status == "killed:string-bound" {
+			hr.Paths["outside-bound"]++
+			continue
+		}
 		if strings.HasPrefix(status, "killed:assume") || status == "killed:infeasible" {
 			hr.Paths["pruned"]++
 			continue
@@ -171,6 +178,7 @@ func runHarness(l *Loaded, pc *PropConfig, fn *ssa.Function, solver *Solver, tie
 		}
 	}
 	hr.Obligations = ex.obligations
+	hr.BoundHits = ex.boundHits
 	hr.States = len(ex.finished)
 	seen := map[string]bool{}
 	for _, ob := range ex.obligations {
@@ -216,7 +224,11 @@ func modelToTape(m []InputVal) []InputVal {
 				v = "0"
 			}
 		case "str":
-			v = decodeSMTString(v)
+			if bstrL > 0 {
+				v = decodeBVString(v)
+			} else {
+				v = decodeSMTString(v)
+			}
 		default:
 			switch {
 			case strings.HasPrefix(v, "#x"):
@@ -234,6 +246,21 @@ func modelToTape(m []InputVal) []InputVal {
 		out[i] = InputVal{Name: iv.Name, Kind: iv.Kind, Val: v}
 	}
 	return out
+}
+
+// decodeBVString: model value of a bounded bit-vector string (#x<content><len>) -> Go string.
+func decodeBVString(v string) string {
+	if !strings.HasPrefix(v, "#x") || len(v) != 2+2*bstrL+2 {
+		return ""
+	}
+	h := v[2:]
+	n, _ := strconv.ParseUint(h[2*bstrL:], 16, 8)
+	var b []byte
+	for i := 0; i < int(n) && i < bstrL; i++ {
+		c, _ := strconv.ParseUint(h[2*i:2*i+2], 16, 8)
+		b = append(b, byte(c))
+	}
+	return string(b)
 }
 
 func decodeSMTString(s string) string {
@@ -360,6 +387,7 @@ func checkProperty(id, tier string, only string) int {
 		return 2
 	}
 	seed, _ := strconv.Atoi(os.Getenv("VERIF_SEED"))
+	bstrL = pc.StrBytes
 	l, err := loadProgram(pc.Sets, pc.Extra)
 	if err != nil {
 		fmt.Printf("INCONCLUSIVE property=%s: cannot load /repo with the harness overlay: %v\n", id, err)
@@ -412,7 +440,14 @@ func checkProperty(id, tier string, only string) int {
 		wg.Add(1)
 		go func() {
 			defer wg.Done()
-			solver, err := NewSolver("z3", timeout)
+			kind := pc.Solver
+			if e := os.Getenv("GOSYM_SOLVER"); e != "" {
+				kind = e
+			}
+			if kind == "" {
+				kind = "z3"
+			}
+			solver, err := NewSolver(kind, timeout)
 			if err != nil {
 				fmt.Fprintf(os.Stderr, "cannot start z3: %v\n", err)
 				return
@@ -436,6 +471,9 @@ func checkProperty(id, tier string, only string) int {
 	wg.Wait()
 
 	known := loadKnown()
+	if only == "" {
+		os.RemoveAll(filepath.Join(verifDir, "replays", id))
+	}
 	violations := 0
 	var inconclusive []string
 	nrep := 0
@@ -599,6 +637,15 @@ func writeEvidence(id, tier string, seed int, pc *PropConfig, results []*Harness
 	cov["load_time_s"] = round3(loadSecs)
 	cov["symbolic_states"] = nstates
 	cov["vacuity_witnesses"] = reached
+	bh := map[string]int{}
+	for _, hr := range results {
+		if hr != nil {
+			for k, v := range hr.BoundHits {
+				bh[k] += v
+			}
+		}
+	}
+	cov["paths_cut_by_representation_bounds"] = bh
 	cov["inconclusive"] = inconclusive
 	cov["unconfirmed_counterexamples"] = unconfirmed
 	cov["known_findings_seen"] = known
